@@ -23,6 +23,13 @@ Independent of `Model/`.  Everything here is said about token streams as `encodi
   * `pfx`        an element or attribute name is written with a prefix (`xlink:href`, `xml:space`, `xmlns:xlink`, `s:svg`)
   * `pi`         a processing instruction that is not the first non-blank token of the document
   * `dup`        a start tag with two attributes of the same local name (`href` and `xlink:href`)
+* `keepsContentMod base printed`  **content kept modulo the named features**: base and printed document are compared
+  after deleting from BOTH exactly what the features above cover (`normal`): every comment; the prefix of every element
+  and attribute name; every processing instruction when the base has one that is not its first token; every non-blank
+  character data that is not the last thing in its element.  What remains of the base must occur, in order, in what
+  remains of the printed document.  This is the part of "keeps the base document's content" that no known finding
+  excuses: when it fails the clause is the plain `base-content`, whatever features the base has.  The harness evaluates
+  the same relation with `encoding/xml` on the real documents (`keptMod`).
 -/
 namespace RawPanelVerif.Spec.SvgBase
 open RawPanelVerif.Xml
@@ -116,6 +123,30 @@ deriving Repr, DecidableEq
 
 def features (ts : List Tok) : Features :=
   { comment := hasComment ts, mixed := mixedText ts, pfx := hasPrefix ts, pi := piMoved ts, dup := attrCollision ts }
+
+/-! ## content modulo the features -/
+
+/-- a name's prefix is not compared -/
+def unprefix : Tok → Tok
+  | .start _ l as => .start [] l (as.map (fun a => ([], a.2.1, a.2.2)))
+  | .stop _ l => .stop [] l
+  | t => t
+
+/-- comments deleted, processing instructions deleted when `dropPI`, character data that is not the last thing in
+its element deleted (the judgement is made on the stream as it stands, comments and instructions skipped) -/
+def dropCovered (dropPI : Bool) : List Tok → List Tok
+  | [] => []
+  | .comment _ :: r => dropCovered dropPI r
+  | .pi t i :: r => if dropPI then dropCovered dropPI r else .pi t i :: dropCovered dropPI r
+  | .text s :: r => if !s.isEmpty && !closesNext r then dropCovered dropPI r else .text s :: dropCovered dropPI r
+  | t :: r => t :: dropCovered dropPI r
+
+/-- the normal form of a token stream: what no named feature covers -/
+def normal (dropPI : Bool) (ts : List Tok) : List Tok := (dropCovered dropPI ts).map unprefix
+
+/-- the content of the base that no named feature covers occurs, in order, in the printed document's -/
+def keepsContentMod (base printed : List Tok) : Bool :=
+  (content (normal (piMoved base) base)).isSublist (content (normal (piMoved base) printed))
 
 /-- none of the features that make the round trip lose content -/
 def lossFree (ts : List Tok) : Bool := !hasComment ts && !mixedText ts && !hasPrefix ts && !piMoved ts
